@@ -260,6 +260,15 @@ def variants(v, spec, rng):
                 x = mn.copy()
                 x[idx] = mn[idx] + 1
                 out.append(("just_inside_min", x))
+    # infinities and the largest finite values: members of a float spec exactly when its bounds allow them (an unbounded
+    # Array / infinite bounds), and then also of the converted gym space and dm_env spec
+    if np.issubdtype(dt, np.floating) and base.size:
+        idx = tuple(int(rng.integers(0, s)) for s in spec.shape)
+        for nm, val in (("plus_inf", np.inf), ("minus_inf", -np.inf), ("largest_finite", np.finfo(dt).max),
+                        ("lowest_finite", np.finfo(dt).min)):
+            x = np.asarray(base, dtype=dt).copy()
+            x[idx] = val
+            out.append((nm, x))
     # weakly typed Python scalars: converted to a JAX array they get the default int32 / float32 dtype, so they are
     # members only of specs of exactly that dtype (a float never belongs to an integer spec, however it is rounded)
     extra_raw = []
